@@ -93,7 +93,7 @@ PROPS = {
     },
     'C07': {
         'level': 'proof',
-        'verus': [{'group': 'c07_transactions'}, {'group': 'srv_exec'}, {'group': 'srv_frame'}],
+        'verus': [{'group': 'c07_transactions'}, {'group': 'srv_exec'}, {'group': 'srv_frame'}, {'group': 'srv_push'}],
         'tables': [{'name': 'should_queue_command', 'file': 'src/storage/commands/transactions.rs', 'fn': 'should_queue_command',
                     'extra_names': ['MULTI', 'EXEC', 'DISCARD', 'WATCH', 'UNWATCH'],
                     'expect_true': lambda names: set(names) - {'MULTI', 'EXEC', 'DISCARD', 'WATCH', 'UNWATCH'},
@@ -129,7 +129,7 @@ PROPS = {
     },
     'C13': {
         'level': 'proof',
-        'verus': [{'group': 'c13_blocking'}],
+        'verus': [{'group': 'c13_blocking'}, {'group': 'srv_push'}, {'group': 'srv_notify'}],
         'explanation': 'registry kernel: FIFO service, registry invariant, and no leftover registration of a served client (with unregister_client as assumed contract)',
     },
     'C15': {
